@@ -141,6 +141,32 @@ Proof. vm_compute. repeat split; reflexivity. Qed.
     correspondence runs) equals the plain model for deepest levels up to 32 — so every other theorem applies
     there — and above that an in-grid polygon makes SnapPolygon panic (NZTM2000Quad tile matrix 21 = level 33;
     replayed on the implementation) *)
+From Texel Require Import Snap.ProofsGenKmp.
+From Texel.Gen Require Import KmpGen.
+
+(** ** tie G2 (loops): the three search functions of snap.go REGENERATED from source on this run (gen/KmpGen.v) are
+    the model's, on ALL inputs and with all outcomes.  Each Go loop is a Fixpoint on fuel over exactly the
+    variables it assigns; index and slice expressions are [idx] / [setidx] / [slice] ([Err IndexOutOfRange],
+    [Err SliceBounds] = Go's run-time panics); kmpTable's writes through its slice parameter are its result;
+    [make([]int, max(len(corpus), 2))] is [repeat 0 ..]; [==] on [2]float64 is [pt_eqb]; [int] is exact Z.
+    The generated loops run on the model's fuel (2 len find + 2, (len corpus + 2)(len find + 2), len corpus + 2),
+    so the equalities include [Err OutOfFuel]; C06_search_total shows the fuel always suffices. *)
+Theorem C06_source_tie_kmp_search :
+  (forall find table, gen_kmpTable find table = kmpTable find table) /\
+  (forall corpus find, gen_kmpSearch corpus find = kmpSearch corpus find) /\
+  (forall corpus find, gen_kmpSearchAll corpus find = kmpSearchAll corpus find).
+Proof.
+  split; [exact gen_kmpTable_spec |]. split; [exact gen_kmpSearch_spec | exact gen_kmpSearchAll_spec].
+Qed.
+Print Assumptions C06_source_tie_kmp_search.
+
+Example C06_source_tie_kmp_search_example :
+  gen_kmpSearchAll [(1,1); (2,2); (1,1); (2,2); (3,3); (1,1); (2,2)] [(1,1); (2,2)] = Ok [0; 2; 5] /\
+  gen_kmpSearch [(1,1); (1,1); (2,2)] [(1,1); (2,2)] = Ok 1 /\
+  gen_kmpTable [(1,1); (2,2); (1,1); (2,2)] [0; 0; 0; 0] = Ok [-1; 0; 0; 1] /\
+  gen_kmpTable [(1,1)] [0] = Err IndexOutOfRange.
+Proof. vm_compute. repeat split; reflexivity. Qed.
+
 From Texel Require Import Index.ProofsInsert Snap.ModelFull Snap.ProofsFull.
 Theorem C06_full_model_agrees_upto_level_32 : forall g P levels cfg, (gdeep g <= 32)%nat ->
   snapPolygonFull g P levels cfg = snapPolygon g P levels cfg.
